@@ -176,7 +176,9 @@ func discharge(o *Obligation, idx int, opt dischargeOpts) {
 			if !opt.allAgree {
 				break
 			}
-		} else if !decided {
+		} else if !decided && !(st == "error" && (o.Status == "timeout" || o.Status == "unknown")) {
+			// a solver that cannot read the query (cvc5 and constant arrays over non-values) does not replace
+			// "undecided within the budget" as the reason
 			o.Status, o.Solver, o.RawOut = st, s.name, out
 		}
 	}
